@@ -70,3 +70,15 @@ Proof. exact au16_fails_iff. Qed.
 Theorem C03_getuint32_err : forall msg, fst (astep msg AU32) = RFail <-> (length msg < 4)%nat.
 Proof. exact au32_fails_iff. Qed.
 Print Assumptions C03_getuint32_err.
+
+(* ---- whole connections ---- *)
+Require Import Wire.Session Wire.Case Spec.Oracles Spec.OracleFactsParse.
+(* nothing of one message leaks into the interpretation of another: whatever the client's byte stream (surplus
+   fields, bodies of skipped or oversized messages that look like protocol messages, declared lengths up to
+   2^32-1), the query texts the parse function is called with are, in order and each at most once, the query
+   texts of the complete Query / Parse messages the stream frames to under the declared lengths *)
+Theorem C03_parser_sees_the_framed_messages : forall sc,
+  (forall v after rest, start (cfg_of_case sc) (sc_raw sc) = Some (v, after, rest) -> v <> version_ssl) ->
+  oracle_parse_budget sc (run_case sc) = true.
+Proof. exact oracle_parse_budget_model. Qed.
+Print Assumptions C03_parser_sees_the_framed_messages.
